@@ -152,6 +152,7 @@ class InternalCompiler(Compiler):
     def compile_and(self, qc, expr, dest=None) -> int:
         # 1. Compile every argument
         erets = list(map(lambda e: self.compile_expr(qc, e), expr.args))
+        fresh = dest is None
 
         # 2. Get a destination qubit
         if dest is None:
@@ -165,9 +166,11 @@ class InternalCompiler(Compiler):
         erets = list(set(erets))
         qc.mcx(erets, dest)
 
-        # 5. Mark ancilla every argument and return
+        # 5. Mark ancilla every argument and return; a caller-supplied dest is an
+        # accumulator that may hold more than this expression
         [qc.mark_ancilla(eret) for eret in erets]
-        self.expqmap[expr] = dest
+        if fresh:
+            self.expqmap[expr] = dest
 
         return dest
 
@@ -176,6 +179,7 @@ class InternalCompiler(Compiler):
 
         # 1. Compile every argument
         erets = list(map(lambda e: self.compile_expr(qc, e), expr.args))
+        fresh = dest is None
 
         # 2. Get a destination qubit
         if dest is None:
@@ -195,7 +199,8 @@ class InternalCompiler(Compiler):
 
         # 5. Mark ancilla every argument and return
         [qc.mark_ancilla(eret) for eret in erets]
-        self.expqmap[expr] = dest
+        if fresh:
+            self.expqmap[expr] = dest
 
         return dest
 
@@ -220,12 +225,14 @@ class InternalCompiler(Compiler):
             return eret
         # 3. Otherwise map to a new qubit and perform the X
         else:
+            fresh = dest is None
             if dest is None:
                 dest = qc.get_free_ancilla()
             qc.cx(eret, dest)
             qc.x(dest)
             qc.mark_ancilla(eret)
-            self.expqmap[expr] = dest
+            if fresh:
+                self.expqmap[expr] = dest
 
             return dest
 
@@ -255,7 +262,8 @@ class InternalCompiler(Compiler):
             else:
                 d = self.compile_expr(qc, e, dest=d)
 
-        self.expqmap[expr] = d
+        if dest is None:
+            self.expqmap[expr] = d
         return d
 
     def compile_symbol(self, qc, expr, dest=None, sym=None) -> int:
